@@ -341,7 +341,15 @@ def check_budgets(chk, sc):
     stop = sc.get("stop_updating_after") if sc.get("stop_updating_after") is not None else 1e-10
     u = unit(dt)
     # documented accuracy floor: relative residual ~ sqrt(eps) (safe division) / stop_updating_after (freeze) / rounding
-    relres_floor = 3 * math.sqrt(eps) + 3 * stop + 50 * math.sqrt(kA) * u
+    # (with a preconditioner the safe divisions act on z = M^-1 r: p'Ap < eps <=> |r| <~ lmax(M) sqrt(eps/lmin(A)),
+    #  r'z < eps <=> |r| <~ sqrt(eps lmax(M)))
+    lminA = float(torch.linalg.eigvalsh(A64)[..., 0].min())
+    if sc.get("Minv") is not None:
+        lmaxM = 1.0 / float(torch.linalg.eigvalsh(sc["Minv"].double())[..., 0].min())
+        fm = max(1.0, lmaxM / math.sqrt(lminA), math.sqrt(lmaxM))
+    else:
+        fm = max(1.0, 1.0 / math.sqrt(lminA))
+    relres_floor = 3 * math.sqrt(eps) * fm + 3 * stop + 50 * math.sqrt(kA) * u
     bnorm = rhs.double().norm(dim=-2)
     evs = torch.linalg.eigvalsh(A64)
     lmin = evs[..., :1]
